@@ -140,7 +140,7 @@ pub fn run(ctx: &mut Ctx) {
         }
     }
     // long random strings with CR/LF planted at internal buffer edges
-    let n_long = ctx.pick(150, 1500);
+    let n_long = ctx.pick(150, 6000);
     let edges = [511usize, 512, 513, 1023, 1024, 1025, 1535, 1536, 8191, 8192, 8193];
     for i in 0..n_long {
         let len = match i % 5 {
